@@ -277,7 +277,12 @@ pub fn eval(which: Which, ws: &Workspace, focus_file_global: Option<(usize, usiz
                             for r in &a.ranges {
                                 ranges_checked += 1;
                                 if let Some(v) = sweep::range_violation(&files, &tb, r) {
-                                    findings.push(Finding { class: "range".into(), key: format!("{}|{}", r.what, v.split(':').nth(1).unwrap_or("").trim().split(' ').take(3).collect::<Vec<_>>().join(" ")), detail: format!("{q:?} at {}:{off}: {v}", f.rel), query: format!("{q:?}"), file: fi, off });
+                                    findings.push(Finding { class: "range".into(), key: format!("{}|{}", r.what, {
+                                        // the kind of defect, without the offsets of this particular witness
+                                        let tail = v.split(':').nth(1).unwrap_or("").trim();
+                                        let words: Vec<&str> = tail.split(' ').filter(|w| !w.chars().next().map_or(false, |c| c.is_ascii_digit() || c == '(' || c == '"')).take(4).collect();
+                                        words.join(" ")
+                                    }), detail: format!("{q:?} at {}:{off}: {v}", f.rel), query: format!("{q:?}"), file: fi, off });
                                 }
                             }
                         }
